@@ -37,9 +37,7 @@ theorem createObject_cases (st : Store) (f : List Char) (a : Bool) :
   · split
     · exact ⟨rfl, Or.inl ⟨_, rfl, rfl, rfl, rfl⟩⟩
     · exact ⟨rfl, Or.inr ⟨rfl, rfl, rfl⟩⟩
-  · split
-    · exact ⟨rfl, Or.inl ⟨_, rfl, rfl, rfl, rfl⟩⟩
-    · exact ⟨rfl, Or.inr ⟨rfl, rfl, rfl⟩⟩
+  · exact ⟨rfl, Or.inr ⟨rfl, rfl, rfl⟩⟩
 
 theorem createG_cases (g : GStore) (f : List Char) (a : Bool) (rs : List Nat) :
     (createG g f a rs).1.shared = g.shared ∧ (createG g f a rs).1.components = g.components ∧
@@ -101,11 +99,88 @@ theorem addComponentMetadata_fileOf (st : Store) (i : Nat) (p l : List Char) :
   simp only
   split <;> rfl
 
+/-! ### which member a new object goes to -/
+
+theorem mem_iwaPaths (files : List (List Char × Option (List Nat))) (f path : List Char) (segs : List Nat) :
+    (path, segs) ∈ iwaPaths files f ↔ ((path, some segs) ∈ files ∧ isInfix f path = true) := by
+  unfold iwaPaths
+  rw [List.mem_filterMap]
+  constructor
+  · rintro ⟨⟨n, o⟩, hm, he⟩
+    cases o with
+    | none => simp at he
+    | some s =>
+      simp only at he
+      split at he
+      · rename_i hin
+        simp only [Option.some.injEq, Prod.mk.injEq] at he
+        obtain ⟨rfl, rfl⟩ := he
+        exact ⟨hm, hin⟩
+      · cases he
+  · rintro ⟨hm, hin⟩
+    exact ⟨(path, some segs), hm, by simp [hin]⟩
+
+theorem createObject_noappend_ok (st : Store) (f : List Char) : (createObject st f false).2 = .ok (st.maxId + 1) := by
+  unfold createObject newMessageId
+  simp only
+  split
+  · simp
+  · rfl
+
+theorem createObject_append_cases (st : Store) (f : List Char) :
+    (createObject st f true).2 = .ok (st.maxId + 1) ∨
+    ((createObject st f true).2 = .error .KeyError ∧ iwaPaths st.files f = []) := by
+  unfold createObject newMessageId
+  simp only
+  split
+  · rename_i h; exact Or.inr ⟨by simp, h⟩
+  · exact Or.inl rfl
+
+theorem createObject_first_member (st : Store) (f : List Char) (a : Bool) (path : List Char) (segs : List Nat)
+    (rest : List (List Char × List Nat)) (h : iwaPaths st.files f = (path, segs) :: rest) :
+    (createObject st f a).2 = .ok (st.maxId + 1) ∧
+    dictGet? (createObject st f a).1.files path = some (some (segs ++ [st.maxId + 1])) ∧
+    dictGet? (createObject st f a).1.fileOf (st.maxId + 1) = some path := by
+  unfold createObject newMessageId
+  simp only [h]
+  exact ⟨trivial, by rw [dictGet?_dictSet, if_pos rfl], by rw [dictGet?_dictSet, if_pos rfl]⟩
+
+theorem createObject_filed (st : Store) (f : List Char) (a : Bool) (id : Nat) (h : (createObject st f a).2 = .ok id) :
+    ∃ path segs, dictGet? (createObject st f a).1.fileOf id = some path ∧
+      dictGet? (createObject st f a).1.files path = some (some segs) ∧ id ∈ segs := by
+  unfold createObject newMessageId at h ⊢
+  simp only at h ⊢
+  split
+  · rename_i hp
+    simp only [hp] at h
+    split at h
+    · cases h
+    · rename_i ha
+      simp only [Except.ok.injEq] at h
+      subst h
+      simp only [ha, Bool.false_eq_true, if_false]
+      exact ⟨_, _, by rw [dictGet?_dictSet, if_pos rfl], by rw [dictGet?_dictSet, if_pos rfl], by simp⟩
+  · rename_i path segs rest hp
+    simp only [hp, Except.ok.injEq] at h
+    subst h
+    exact ⟨_, _, by rw [dictGet?_dictSet, if_pos rfl], by rw [dictGet?_dictSet, if_pos rfl], by simp⟩
+
 /-! ### update_object_file_store -/
 
 /-- object `i` is filed: `_object_to_filename_map[i]` names an IWA file whose archives include `i` -/
 def Filed (g : GStore) (i : Nat) : Prop :=
   ∃ path segs, dictGet? g.fileOf i = some path ∧ dictGet? g.files path = some (some segs) ∧ i ∈ segs
+
+theorem createG_filed (g : GStore) (f : List Char) (a : Bool) (rs : List Nat) (id : Nat)
+    (h : (createG g f a rs).2 = .ok id) : Filed (createG g f a rs).1 id := by
+  have key : (createG g f a rs).1.toStore = (createObject g.toStore f a).1 ∧ (createG g f a rs).2 = (createObject g.toStore f a).2 := by
+    unfold createG
+    split <;> rename_i heq <;> rw [heq] <;> exact ⟨rfl, rfl⟩
+  rw [key.2] at h
+  obtain ⟨path, segs, h1, h2, h3⟩ := createObject_filed g.toStore f a id h
+  refine ⟨path, segs, ?_, ?_, h3⟩
+  · show dictGet? (createG g f a rs).1.toStore.fileOf id = _; rw [key.1]; exact h1
+  · show dictGet? (createG g f a rs).1.toStore.files path = _; rw [key.1]; exact h2
 
 theorem wellFiled_iff (g : GStore) : wellFiled g = true ↔ ∀ i ∈ g.ids, Filed g i := by
   unfold wellFiled Filed
